@@ -82,7 +82,7 @@ def main():
   ap = argparse.ArgumentParser()
   ap.add_argument('seed', type=int)
   ap.add_argument('tier')
-  ap.add_argument('--avoid', default='D1,D2,D6')
+  ap.add_argument('--avoid', default='D1,D2')
   ap.add_argument('--k', type=int, default=None)
   ap.add_argument('--random', type=int, default=None)
   ap.add_argument('--options', default='plain,builtins,eq,norec,decorator')
